@@ -42,7 +42,8 @@ Fixpoint sels_strictM (fuel : nat) (C : cfg) (S : schema) (frs : list fragdef) (
           forallb (fun f =>
             field_strict C S nested tn f &&
             match fn_sub f, schema_field_type S tn (fn_name f) with
-            | Some sub, Ok t => strict_sub (sels_strictM g C S frs true) S (base_name t) sub
+            | Some sub, Ok t => (* interface positions: only in the mixin-free theorem (okb = false here) *)
+                                strict_sub (fun _ _ => false) (sels_strictM g C S frs true) S (base_name t) sub
             | _, _ => true
             end) fns &&
           forallb (fun m => match lookup_frag frs m with
@@ -63,7 +64,7 @@ Lemma sels_strictM_inv gs C S frs nested tn sels g fns ms :
   sels_strictM gs C S frs nested tn sels = true -> flattenM g S frs tn tn false sels = Some (fns, ms) ->
   exists gs', gs = Datatypes.S gs' /\
     forallb (fun f => field_strict C S nested tn f &&
-                      sub_strict S (sels_strictM gs' C S frs true) tn f) fns = true /\
+                      sub_strict S (fun _ _ _ _ => false) (sels_strictM gs' C S frs true) tn f) fns = true /\
     forallb (mixin_strict gs' C S frs tn) ms = true.
 Proof.
   destruct gs as [|gs']; [discriminate|]. cbn [sels_strictM]. intros H Hfl.
@@ -187,7 +188,7 @@ Section MixS.
 
   Theorem mixS_main : forall g gs fuel pub cn tn sels at_ tv top nested out pub' k l N,
     fuel <= F -> parse_type_def fuel C S frs pub cn tn sels at_ [] tv = Ok (out, pub', false) ->
-    sels_okM g true C S frs top nested tn tn sels = true -> sels_strictM gs C S frs nested tn sels = true ->
+    sels_okM g true C S frs top at_ tn tn sels = true -> sels_strictM gs C S frs nested tn sels = true ->
     (at_ = true -> has_typename sels = true) ->
     tv = (if nested then Some [tn] else None) -> table_ok cls out ->
     collect k S frs tn false sels = Some l -> incl l N -> ambS N ->
@@ -237,7 +238,7 @@ Section MixS.
                                          field_facts_rev C S frs (Wn n') tn f pf) fns pfl).
     { apply Forall2_forall. intros n' Hn'. destruct n' as [|n1]; [lia|].
       eapply level_facts_rev with (W := Wn (Datatypes.S n1)) (mro := mro_fields n1 cls)
-                                  (ok := sels_okM g true C S frs true true)
+                                  (ok := sels_okM g true C S frs true) (ok2 := fun _ _ _ _ => false)
                                   (strict := sels_strictM gs' C S frs true)
                                   (fuel' := fuel') (g := g) (cs := cls);
         try eassumption.
@@ -258,6 +259,7 @@ Section MixS.
       - eauto.
       - (* nested classes *)
         intros pb cn2 tn2 sels2 at2 out2 pub2 kv2 P1 P2 P3 P3' P4 P5.
+        destruct P2 as [P2 | P2]; [| discriminate P2].
         unfold Wn in P5. apply andb_true_iff in P5 as [P5 P6].
         change (class_accepts (accepts n1 cls (schema_enums S)) (mro_fields n1 cls cn2) (JObj kv2) = true) in P5.
         change (class_covers (covers n1 cls) (mro_fields n1 cls cn2) (JObj kv2) = true) in P6.
@@ -310,11 +312,11 @@ Section MixS.
       rewrite <- Ekm. eapply (NoDup_map_inj_in (py_field_name C) (map n_key N)); eauto.
       - rewrite B1. change (field_key fb0) with (n_key (node_of_fnode false fb0)). apply in_map, Hfb0.
       - rewrite <- A1, En, B2, B1. reflexivity. }
-    pose proof (fields_run_pf _ _ _ _ _ _ _ _ _ _ _ _ _ _ Hrun) as FP.
+    pose proof (fields_run_pf _ _ _ _ _ _ _ _ _ _ _ _ _ _ _ Hrun) as FP.
     intros x Hx. destruct (flattenM_collect_conv _ _ _ _ _ _ _ _ _ _ _ Hfl Hcol x Hx)
       as [[fn [Hfn Ex]] | [m [fm [km [lm [Hm [Elf [Hcm Hxm]]]]]]]].
     - destruct (Forall2_In_l _ _ _ _ FP Hfn) as [pf [Hpf [ctx Hfp]]].
-      destruct (field_pf_inv _ _ _ _ _ _ _ _ _ _ Hfp) as [t [a0 [il [_ [_ Epf]]]]].
+      destruct (field_pf_inv _ _ _ _ _ _ _ _ _ _ _ Hfp) as [t [a0 [il [_ [_ Epf]]]]].
       apply in_map_iff. exists pf. split; [| apply Hownp; exact Hpf].
       subst pf x. rewrite mk_pfield_key. reflexivity.
     - unfold reach_ok in Hreach.
@@ -346,7 +348,7 @@ Theorem op_strict_mix C S frs F kind name sels root own pub' cls g gs j n :
   n >= F + g + 2 ->
   accepts n cls (schema_enums S) (AClass (pascal_s name)) j = true ->
   covers n cls (AClass (pascal_s name)) j = true ->
-  ev (fun fc => conf_op_gen lax_leaf false fc S frs root sels j).
+  ev (fun fc => conf_op_gen lax_leaf false true fc S frs root sels j).
 Proof.
   intros Hroot Hop Hall Hok Hst Hnd Hnb Hfs Hn Hacc Hcov.
   apply nodupb_NoDup in Hnd.
